@@ -298,6 +298,10 @@ func substring(context Context, args ...Result) (Result, error) {
 		begin = 1
 	}
 
+	if end <= 0 {
+		return String(""), nil
+	}
+
 	if float64(begin+end-1) >= float64(len(str)) {
 		end = float64(len(str)) - begin + 1
 	}
